@@ -383,9 +383,23 @@ fn eval_axis_node_test(
         },
     };
 
+    // A name test selects only nodes of the principal node type of the axis.
+    let principal = match axis {
+        expr::AxisSpecifier::Abbreviated(v) if v.as_str() == "@" => dom::NodeType::Attribute,
+        expr::AxisSpecifier::Name(expr::AxisName::Attribute) => dom::NodeType::Attribute,
+        expr::AxisSpecifier::Name(expr::AxisName::Namespace) => dom::NodeType::Attribute,
+        _ => dom::NodeType::Element,
+    };
+    let namespace_axis = matches!(
+        axis,
+        expr::AxisSpecifier::Name(expr::AxisName::Namespace)
+    );
+
     let mut tested = vec![];
     for node in nodes {
-        if eval_node_test(test, node.clone(), context)? {
+        let is_principal = node.node_type() == principal
+            && matches!(node, dom::XmlNode::Namespace(_)) == namespace_axis;
+        if eval_node_test(test, node.clone(), is_principal, context)? {
             tested.push(node);
         }
     }
@@ -429,22 +443,27 @@ fn eval_axis_node_test(
 fn eval_node_test(
     test: &expr::NodeTest,
     node: dom::XmlNode,
+    is_principal: bool,
     context: &mut model::Context,
 ) -> error::Result<bool> {
     match test {
         expr::NodeTest::Name(name) => match name {
-            expr::NameTest::All => Ok(true),
+            expr::NameTest::All => Ok(is_principal),
             expr::NameTest::Namespace(prefix) => {
                 let uri_a = context
                     .get_ns_uri(Some(prefix))
                     .ok_or_else(|| error::Error::NotFoundNamespace(prefix.to_string()))?;
-                if let Some((_, _, uri_b)) = node.as_expanded_name()? {
+                if !is_principal {
+                    Ok(false)
+                } else if let Some((_, _, uri_b)) = node.as_expanded_name()? {
                     Ok(Some(uri_a) == uri_b.as_deref())
                 } else {
                     Ok(false)
                 }
             }
-            expr::NameTest::QName(qname) => equal_qname(qname, node, context),
+            expr::NameTest::QName(qname) => {
+                Ok(equal_qname(qname, node, context)? && is_principal)
+            }
         },
         expr::NodeTest::PI(_) => unimplemented!("Not support `processing-instruction`."),
         expr::NodeTest::Type(ty) => match ty {
@@ -531,16 +550,23 @@ fn child(node: dom::XmlNode) -> Vec<dom::XmlNode> {
     let mut nodes = vec![];
 
     for c in node.child_nodes().iter() {
-        nodes.push(c.clone());
+        if in_data_model(&c) {
+            nodes.push(c.clone());
+        }
     }
 
     nodes
 }
 
+/// The document type declaration is not a node of the XPath data model.
+fn in_data_model(node: &dom::XmlNode) -> bool {
+    node.node_type() != dom::NodeType::DocumentType
+}
+
 fn descendant(node: dom::XmlNode) -> Vec<dom::XmlNode> {
     let mut nodes = vec![];
 
-    for child in node.child_nodes().iter() {
+    for child in child(node) {
         nodes.push(child.clone());
 
         let mut desc = descendant(child);
@@ -571,7 +597,9 @@ fn following_sibling(node: dom::XmlNode) -> Vec<dom::XmlNode> {
 
     let mut next = node.next_sibling();
     while let Some(n) = next {
-        nodes.push(n.clone());
+        if in_data_model(&n) {
+            nodes.push(n.clone());
+        }
         next = n.next_sibling();
     }
 
@@ -607,7 +635,9 @@ fn preceding_sibling(node: dom::XmlNode) -> Vec<dom::XmlNode> {
 
     let mut prev = node.previous_sibling();
     while let Some(p) = prev {
-        nodes.push(p.clone());
+        if in_data_model(&p) {
+            nodes.push(p.clone());
+        }
         prev = p.previous_sibling();
     }
 
